@@ -5,7 +5,8 @@
 // constant of exactly the path string (the registry key of unit modules: the interned path, C11), then FinishImport, and
 // binds the value left on the stack (the module object: modules/Vm::finish_import_impl) to that variable. So a module's
 // globals reach the importer only as attributes of that one object. Importing "main" and a path without a file name
-// are compile errors.
+// are compile errors; so is a path whose file name is a reserved word (the variable would shadow `super` / `self`:
+// classes/Vm::super_invoke_impl relies on `super` naming the hidden class variable).
 use vstd::prelude::*;
 verus! {
 
@@ -31,6 +32,11 @@ pub uninterp spec fn file_name_of(p: Seq<char>) -> Option<Seq<char>>;
 #[verifier::external_body]
 fn path_file_name(p: &String) -> (r: Option<&str>) ensures (r is Some) == (file_name_of(p@) is Some), r matches Some(s) ==> s@ == file_name_of(p@)->0 { unimplemented!() }
 
+// scanner.rs is_reserved_word: spelled like an identifier but a keyword of the language (`super`, `self`, `nil` …)
+pub uninterp spec fn reserved(name: Seq<char>) -> bool;
+#[verifier::external_body]
+fn is_reserved_word(word: &str) -> (r: bool) ensures r == reserved(word@) { unimplemented!() }
+
 // what the statement does, as far as module loading and name binding are concerned
 pub enum Ev { Declare(Seq<char>), Start(int), Finish, Define(int) }
 // identifier_constant (unit compiler): the constant-table index of the interned string with this text
@@ -38,7 +44,9 @@ pub uninterp spec fn const_of(text: Seq<char>) -> int;
 
 pub struct Parser { pub previous: Token, pub current: Token, pub ghost events: Seq<Ev>, pub ghost had_error: bool }
 impl Parser {
-    #[verifier::external_body] fn consume(&mut self, kind: TokenKind, message: &str) ensures final(self).events == old(self).events, old(self).had_error ==> final(self).had_error { unimplemented!() }
+    // on success `previous` is a token of the requested kind; the scanner never makes an Identifier token of a reserved
+    // word (scanner.rs identifier_type: assumed here)
+    #[verifier::external_body] fn consume(&mut self, kind: TokenKind, message: &str) ensures final(self).events == old(self).events, old(self).had_error ==> final(self).had_error, final(self).had_error || final(self).previous.kind == kind, final(self).previous.kind is Identifier ==> !reserved(final(self).previous.source@) { unimplemented!() }
     #[verifier::external_body] fn match_token(&mut self, kind: TokenKind) -> bool ensures final(self).events == old(self).events, old(self).had_error ==> final(self).had_error { unimplemented!() }
     #[verifier::external_body] fn error(&mut self, message: &str) ensures final(self).events == old(self).events, final(self).had_error, final(self).previous == old(self).previous, final(self).current == old(self).current { unimplemented!() }
     #[verifier::external_body] fn identifier_constant(&mut self, token: &Token) -> (r: u16) ensures r as int == const_of(token.source@), final(self).events == old(self).events, final(self).had_error == old(self).had_error, final(self).previous == old(self).previous, final(self).current == old(self).current { unimplemented!() }
@@ -54,7 +62,8 @@ impl Parser {
     //@fn file=yarel/src/compiler.rs path=Parser::import_statement
     //@  rewrite R21 R29 R28
     //@  subst "(|| Some(Path::new(&path.source).file_name()?.to_str()?))()" => "path_file_name(&path.source)"
-    //@  ensures @an_import_declares_one_variable_loads_exactly_the_named_path_and_binds_the_module_object_to_that_variable final(self).events.len() == old(self).events.len() + 4 ==> (exists|name: Seq<char>, path: Seq<char>| final(self).events == old(self).events.push(Ev::Declare(name)).push(Ev::Start(const_of(path))).push(Ev::Finish).push(Ev::Define(const_of(name))) && (path == "main"@ ==> final(self).had_error))
+    //@  subst "scanner::is_reserved_word(filename)" => "is_reserved_word(filename)"
+    //@  ensures @an_import_declares_one_variable_that_is_no_reserved_word_loads_exactly_the_named_path_and_binds_the_module_object_to_it final(self).events.len() == old(self).events.len() + 4 ==> (exists|name: Seq<char>, path: Seq<char>| final(self).events == old(self).events.push(Ev::Declare(name)).push(Ev::Start(const_of(path))).push(Ev::Finish).push(Ev::Define(const_of(name))) && (path == "main"@ ==> final(self).had_error) && (final(self).had_error || !reserved(name)))
     //@  ensures @an_import_emits_the_whole_protocol_or_nothing final(self).events.len() == old(self).events.len() + 4 || final(self).events == old(self).events
     //@  ensures @an_import_that_emits_nothing_is_a_compile_error final(self).events == old(self).events ==> final(self).had_error
     //@end
